@@ -292,7 +292,8 @@ def run_long(rec, tier, seed):
                         break
                 rec.observe(subset, nj, rc)
     # non-default binning parameters: whatever is configured applies to every query of the call, long or short
-    for kw in (dict(n_median_bins=50), dict(n_median_bins=7, n_score_bins=50), dict(n_score_bins=200, n_cache=400), dict(n_target_bins=None, n_median_bins=300)):
+    for kw in (dict(n_median_bins=50), dict(n_median_bins=7, n_score_bins=50), dict(n_score_bins=200, n_cache=400), dict(n_target_bins=None, n_median_bins=300),
+               dict(n_score_bins=2000, n_cache=4000)):       # fine bins: 30 columns x 2000 bins exceeds 2^15
         alone_kw = [torch.stack(list(TT.tomtom([Q], Ts, n_jobs=1, **kw))).numpy()[:, 0] for Q in Qs]
         for subset in ([0, 1, 2, 3, 4], [1, 4, 2], [2, 3]):
             for nj in (1, 5):
@@ -329,6 +330,27 @@ def run_long(rec, tier, seed):
             if not okp:
                 rec.violation("tomtom:result_depends_on_co_query_storage_type", dict(case, query_position=pos),
                               expected=alone_m[i][0][:4], observed=got[0, pos][:4])
+                break
+    # the queries as ONE stacked (n, alphabet, width) array / tensor instead of a list: the same queries, the same rows
+    Qeq = [pat(6, k) for k in range(4)]
+    ref_rows = [torch.stack(list(TT.tomtom([Q], Ts[:40], n_jobs=1))).numpy()[:, 0] for Q in Qeq]
+    for form, Qst in (("numpy (n,4,w)", numpy.stack(Qeq)), ("tensor (n,4,w)", torch.from_numpy(numpy.stack(Qeq))), ("tuple", tuple(Qeq)),
+                      ("reversed numpy stack", numpy.stack(Qeq[::-1]))):
+        st, res = call(TT.tomtom, Qst, Ts[:40], n_jobs=3)
+        rec.case(1, 1)
+        rec.count("traces_validated_against_impl")
+        case = dict(fn="tomtom", queries="4 queries of width 6", container=form, generator="pat(6,k)")
+        if st != "ok":
+            if form.startswith("tensor") and "sequence" in str(res):
+                rec.count("refused_query_container")      # a stacked torch tensor is refused loudly (TypeError); arrays and tuples work
+                continue
+            rec.violation("tomtom:raises:query_container", case, observed=res)
+            continue
+        got = torch.stack(list(res)).numpy()
+        order = list(range(4))[::-1] if form.startswith("reversed") else list(range(4))
+        for pos, i in enumerate(order):
+            if not same(got[:, pos], ref_rows[i]):
+                rec.violation("tomtom:result_depends_on_query_container", dict(case, query_position=pos), expected=ref_rows[i][0][:4], observed=got[:, pos][0][:4])
                 break
     # more than 1024 queries in one call: row i is still the result of query i alone
     Qbig = [pat(1 + (k * 7) % 6, k) for k in range(1100)]
